@@ -276,6 +276,10 @@ func runC07(c *Ctx) {
 				R.OK("C07.bounds", key, pos, "contract: "+why)
 				continue
 			}
+			if why := shapeContract(s); why != "" {
+				R.OK("C07.bounds", key, pos, "contract: "+why)
+				continue
+			}
 			msg := "this " + s.Kind + " is not proven in range for untrusted input: " + describeSite(s)
 			if v := absSites[core.QualName(fn)+"|"+pos]; v != nil && v.detail != "" {
 				msg += " (abstract interpretation: " + v.detail + ")"
@@ -760,6 +764,28 @@ func rebuiltFrom(v ssa.Value, phi *ssa.Phi, d int) string {
 	return ""
 }
 
+// shapeContract: contracts of the standard library recognised by the shape of the site, wherever it stands.
+func shapeContract(site core.BoundSite) string {
+	sl, ok := site.In.(*ssa.Slice)
+	if !ok {
+		return ""
+	}
+	// b[:n] with n, _ := r.Read(b): the io.Reader contract 0 <= n <= len(b)
+	if sl.Low == nil && sl.High != nil {
+		if ex, isEx := core.StripConv(sl.High).(*ssa.Extract); isEx && ex.Index == 0 {
+			if call, isCall := ex.Tuple.(*ssa.Call); isCall {
+				name := core.CalleeName(&call.Call)
+				isRead := name == "(*bufio.Reader).Read" || (call.Call.IsInvoke() && call.Call.Method.Name() == "Read")
+				args := call.Call.Args
+				if isRead && len(args) >= 1 && sameValue(args[len(args)-1], sl.X) {
+					return "io.Reader contract of " + name + ": 0 <= n <= len(b)"
+				}
+			}
+		}
+	}
+	return ""
+}
+
 // advanceContract discharges p[X.Size():] when it is dominated by a successful X.UnmarshalBinary(p) on the same
 // slice value (contract A.3: a nil error implies X.Size() <= len(p); guaranteed by C05.consumed).
 func advanceContract(site core.BoundSite) string {
@@ -828,7 +854,7 @@ func advanceContract(site core.BoundSite) string {
 		case *ssa.BinOp:
 			k, isK := core.ConstInt(x.X)
 			ld, isLd := x.Y.(*ssa.UnOp)
-			if x.Op == token.ADD && isK && k >= 0 && isLd && ld.Op == token.MUL && d > 0 {
+			if x.Op == token.ADD && isK && k >= 0 && isLd && ld.Op == token.MUL {
 				if _, isField := ld.X.(*ssa.FieldAddr); isField {
 					return rootOf(ld.X)
 				}
@@ -1100,10 +1126,7 @@ var c07Contracts = map[string]string{
 	"amf0.(*objectBase).unmarshal|slice#1":                "readOne returned a nil error, i.e. Discovery(p) accepted p, which requires len(p) >= 1 (Discovery's first test, proven by its own symbolic run)",
 	"rtmp.(*Protocol).readMessagePayload|make#1":          "invariant of an attached unfinished message: len(Payload) < payloadLength (a changed length and a type-0 header mid-message are rejected: C02.reject; completed messages are detached: C02.complete), and min() with a chunk size >= 0",
 	"https/jose/cipher.(*cbcAEAD).computeAuthTag|slice#4": "configuration, not input: the HMAC digest (SHA-256/384/512: 32/48/64 bytes, selected in NewCBCHMAC by the key size) is at least as long as the tag size stored beside it (16/24/32)",
-	"https/jose/cipher.KeyUnwrap|slice#2":                 "i ranges over r, made with n = len(ciphertext)/8 - 1 elements (n >= 1 by the length guard at entry), so (i+1)*8 <= n*8 <= len(ciphertext) - 8",
-	"https/jose/cipher.KeyUnwrap|slice#10":                "out has n*8 bytes and i ranges over r (n elements), so i*8 <= n*8",
 	"https/jose/cipher.resize|slice#2":                    "head has n >= len(in) elements: every caller passes n = len(in) + k (checked: C07.bounds https/jose/cipher|resize|callers-pass-n>=len(in))",
-	"websocket.(*messageReader).Read|slice#2":             "io.Reader contract of bufio.Reader.Read: 0 <= n <= len(b)",
 	// JSON+ scanner: firstMatch returns (-1,-1) or an index into flags with 0 <= pos <= len(data)-len(flags[index]) (bytes.Index post-condition);
 	// the four marker tables have equal length (C17.tables), and the (-1,-1) case returns before any use
 	"json.NewCommentReader$1|index#1": "index returned by firstMatch is a valid index of startMatches (loop variable of range flags; -1 case returned earlier)",
@@ -1203,7 +1226,40 @@ func checkFormatFact(c *Ctx) {
 				return
 			}
 			n++
-			ex, isEx := call.Call.Args[2].(*ssa.Extract)
+			// the format argument (found by its name, wherever it stands in the parameter list) is result "format" of
+			// readBasicHeader: result #0 of the call, or the format field of a struct the call hands back
+			fi := core.ParamIndex(rh, "format")
+			if fi < 0 || fi >= len(call.Call.Args) {
+				okCall = false
+				return
+			}
+			arg := core.StripConv(call.Call.Args[fi])
+			if fld, isField := arg.(*ssa.Field); isField {
+				if st, ok := fld.X.Type().Underlying().(*types.Struct); !ok || core.FieldVarName(st.Field(fld.Field)) != "format" {
+					okCall = false
+					return
+				}
+				arg = fld.X
+			}
+			// ... or of a local the struct was assigned to (var bh basicHeader; bh, err = readBasicHeader())
+			if ld, isLoad := arg.(*ssa.UnOp); isLoad && ld.Op == token.MUL {
+				if fa, isFA := ld.X.(*ssa.FieldAddr); isFA && core.FieldVarName(core.FieldVar(fa)) == "format" {
+					if cell, isCell := fa.X.(*ssa.Alloc); isCell {
+						var stored ssa.Value
+						nst := 0
+						for _, ref := range *cell.Referrers() {
+							if st, ok := ref.(*ssa.Store); ok && st.Addr == ssa.Value(cell) {
+								stored = st.Val
+								nst++
+							}
+						}
+						if nst == 1 {
+							arg = core.StripConv(stored)
+						}
+					}
+				}
+			}
+			ex, isEx := arg.(*ssa.Extract)
 			if !isEx || ex.Index != 0 {
 				okCall = false
 				return
@@ -1222,6 +1278,9 @@ func checkFormatFact(c *Ctx) {
 		if r.Path.Abort != "" || len(r.Ret) < 1 {
 			okBits = false
 			continue
+		}
+		if flat, grouped := flattenResults(r.Path, rb, r.Ret); grouped {
+			r.Ret = flat
 		}
 		iv, isInt := r.Ret[0].(*abs.Int)
 		if !isInt {
